@@ -188,6 +188,7 @@ class C09Precedence(Oracle):
     def start(self, run, rp):
         self.competed = 0
         self.steps = 0
+        self.folds = 0
         return ()
 
     def step(self, ctx):
@@ -252,6 +253,19 @@ class C09Precedence(Oracle):
             kind = KIND_OF_CLASS.get(type(g).__name__) if g is not None else None
             if g is None or act(v1) not in EXPECT.get(kind, ()):
                 out.append(V("C09", "unexplained_transition", k, f"vehicle {vid} went {act(v0)} -> {act(v1)} while instructions were applied; its instruction was {g}"))
+        # the joint application is the sequential one: applying the step's final instructions together must give exactly the
+        # world obtained by applying them ONE AT A TIME, in the same order, each all-or-nothing on the state the previous one
+        # left (acceptance is not inferred from the joint result here, so a rejection that silently discards another vehicle's
+        # accepted transition cannot hide behind its own effect)
+        if len(final) >= 2:
+            seq = sim_in
+            for i in final:
+                seq = apply_instructions(seq, ctx.env, (i,))
+            same, diff = world_unchanged(sim_out, seq)
+            self.folds += 1
+            if not same:
+                out.append(V("C09", "joint_differs_from_sequential", k,
+                             f"applying the step's {len(final)} instructions together differs from applying them one at a time in the same order: {diff}"))
         # rejecting one does not disturb the others
         rejected = [i for i in final if not ctx.accepted.get(i.vehicle_id)]
         if rejected and len(final) > len(rejected):
